@@ -1381,6 +1381,28 @@ def find_member(t, name, base=0):
 def has_flex(t):
     return t[0] in ('struct', 'union') and any(m['ty'][0] == 'arr' and m['ty'][2] == 0 for m in t[2])
 
+INDEX_TYPES = ['int', 'unsigned', 'long', 'unsigned long', 'short', 'unsigned short', 'signed char', 'unsigned char', '_Bool']
+
+def index_spelling(rng, base, i, n):
+    """the element `base[i]` of an array / pointed-to run of n elements (n = 0: unknown), spelled through pointer arithmetic with
+    an index or a subtracted offset of every integer type: the same lvalue, so the same bytes (C11 6.5.2.1p2, 6.5.6p8)"""
+    r = rng.random()
+    if r < 0.55:
+        return f'{base}[{i}]'
+    T = rng.choice(INDEX_TYPES)
+    if r < 0.7:
+        if T == '_Bool' and i > 1:
+            T = 'unsigned'
+        return f'(*({base} + ({T}){i}))' if rng.random() < 0.5 else f'(*(({T}){i} + {base}))'
+    # &base[i + d] - (T)d : stays inside the array or one past its end
+    room = (n - i) if n else 0
+    if room < 1:
+        return f'{base}[{i}]'
+    d = rng.randrange(1, min(room, 3) + 1)
+    if T == '_Bool':
+        d = 1
+    return f'(*(&{base}[{i + d}] - ({T}){d}))'
+
 def gen_chain_case(rng, ci):
     nm = Namer(ci)
     l2, _ = gen_level(rng, nm, [], f'C{ci}_2', True)
@@ -1416,7 +1438,7 @@ def gen_chain_case(rng, ci):
             else:
                 i = rng.randrange(cur_ty[2])
             steps.append(f'[{i}]')
-            expr += f'[{i}]'
+            expr = index_spelling(rng, expr, i, cur_ty[2])
             cur_addr += i * size_align(cur_ty[1])[0]
             cur_ty = cur_ty[1]
             continue
@@ -1447,7 +1469,7 @@ def gen_chain_case(rng, ci):
             else:
                 i = rng.randrange(n)
                 steps.append(f'[{i}]')
-                expr += f'[{i}]'
+                expr = index_spelling(rng, expr, i, n)
                 cur_addr, cur_ty = tb + i * psz, pointee
             continue
         ms = [m for m in named_members(cur_ty) if m.get('bits') is None]
